@@ -5,12 +5,14 @@ the line is echoed.  Unknown lines -> `bad-op`.
 -/
 import HvSink.Driver.C16
 import HvSink.Driver.C15
+import HvSink.Driver.C14
 open HvSink.Drv
 
 inductive Mode
   | none
   | c16 (st : C16.St)
   | c15 (st : C15.St)
+  | c14 (st : C14.St)
 
 def step (m : Mode) (line : String) : Mode × String :=
   let ws := words line
@@ -19,6 +21,7 @@ def step (m : Mode) (line : String) : Mode × String :=
     let echo := line.trimAscii.toString
     if mode == "c16" then (.c16 {}, echo)
     else if mode == "c15" then (.c15 {}, echo)
+    else if mode == "c14" then (.c14 {}, echo)
     else (.none, echo)
   | "#case" :: _ => (.none, line.trimAscii.toString)
   | _ =>
@@ -26,6 +29,7 @@ def step (m : Mode) (line : String) : Mode × String :=
     | .none => (m, "bad-op")
     | .c16 st => let r := C16.step st ws; (.c16 r.1, r.2)
     | .c15 st => let r := C15.step st ws; (.c15 r.1, r.2)
+    | .c14 st => let r := C14.step st ws; (.c14 r.1, r.2)
 
 partial def loop (h : IO.FS.Stream) (out : IO.FS.Stream) (m : Mode) : IO Unit := do
   let line ← h.getLine
